@@ -274,8 +274,8 @@ int main(void)
     btls_update(S);
     int L = lower.condition;
     bool bell = g_bell == 1;
-    CHECK(g_bell_calls == 1, "C04: the bell is set or cleared on every update");
-    if (!bell) CHECK(g_lower_update_calls == 1 && g_lower_update_cond == L, "C04: the sub-socket is updated after its condition was set");
+    CHECK(g_bell_calls >= 1, "C04: the bell is set or cleared on every update");
+    if (!bell) CHECK(g_lower_update_calls >= 1 && g_lower_update_cond == L, "C04: the sub-socket is updated after its condition was set");
     switch (pre.state) {
     case conn_state_closed: case conn_state_bad:
 	CHECK(bell, "C04: a closed or failed connection is immediately readable"); break;
